@@ -897,6 +897,33 @@ fn canon_hash(o: &Obs, keep: &BTreeSet<Id>) -> u64 {
     h.finish()
 }
 
+/// short description of what differs between two read-backs
+fn diff_obs(a: &Obs, b: &Obs) -> String {
+    let mut v = vec![];
+    fn map_diff<T: PartialEq + std::fmt::Debug>(name: &str, a: &BTreeMap<Id, T>, b: &BTreeMap<Id, T>, v: &mut Vec<String>) {
+        let keys: BTreeSet<&Id> = a.keys().chain(b.keys()).collect();
+        for k in keys {
+            if a.get(k) != b.get(k) {
+                v.push(format!("{name}[{k}]: {:?} -> {:?}", a.get(k), b.get(k)));
+            }
+        }
+    }
+    map_diff("policies()", &a.pols, &b.pols, &mut v);
+    map_diff("templates()", &a.tpls, &b.tpls, &mut v);
+    map_diff("get_linked_policies", &a.linked, &b.linked, &mut v);
+    map_diff("core policies", &a.ast_links, &b.ast_links, &mut v);
+    if (a.n_pol, a.n_tpl, a.empty) != (b.n_pol, b.n_tpl, b.empty) {
+        v.push(format!("num_of_policies/num_of_templates/is_empty: {:?} -> {:?}", (a.n_pol, a.n_tpl, a.empty), (b.n_pol, b.n_tpl, b.empty)));
+    }
+    if a.ast_templates != b.ast_templates {
+        v.push(format!("core bodies: {:?} -> {:?}", a.ast_templates, b.ast_templates));
+    }
+    if a.ast_slotful != b.ast_slotful {
+        v.push(format!("core templates: {:?} -> {:?}", a.ast_slotful, b.ast_slotful));
+    }
+    v.join("; ")
+}
+
 fn ann_of(b: &Pol) -> Vec<(String, String)> {
     let mut v: Vec<(String, String)> = b.annotations.iter().map(|(k, v)| (k.clone(), v.clone().unwrap_or_default())).collect();
     v.sort();
@@ -1215,7 +1242,7 @@ fn check_step(s: &mut PolicySet, m: &PsModel, op: &Op, t: &Tables) -> Step {
         if res.is_err() {
             // a failed operation changes nothing
             if after != before {
-                problems.push((format!("{}:failed-op-changed-state:{why}", op.name()), format!("{} on {} failed but the set changed:\n before {before:?}\n after  {after:?}", op.show(), m.show())));
+                problems.push((format!("{}:failed-op-changed-state:{why}", op.name()), format!("{} on {} failed but the set changed: {}", op.show(), m.show(), diff_obs(&before, &after))));
             }
         } else if let Err(e) = model.well_formed() {
             // can only happen if the implementation accepted something the prediction left open
@@ -1268,6 +1295,11 @@ struct Explorer {
     pruned: AtomicU64,
     max_set: AtomicU64,
     merge_renames: AtomicU64,
+    /// fingerprint -> (history length, description, replay case): the parallel search is not
+    /// strictly level-ordered, so the shortest failing history per fingerprint is kept here
+    /// and handed to the harness at the end
+    found: Mutex<BTreeMap<String, (usize, String, J)>>,
+    found_count: AtomicU64,
 }
 
 fn state_key(m: &PsModel, canon: u64) -> u64 {
@@ -1290,12 +1322,20 @@ impl Explorer {
             Ok(a) if a == now => {}
             other => machinery(format!("case {} / {:?} is not reproducible in a fresh thread: first {now:?}, then {other:?}", show_hist(hist), op.map(|o| o.show()))),
         }
+        let len = hist.len() + op.is_some() as usize;
         for (fp, what) in problems {
-            self.ctx.violation(
-                fp.clone(),
-                format!("{what}\n history: {}", show_hist(hist)),
-                json!({"history": serde_json::to_value(hist).unwrap(), "op": serde_json::to_value(&op).unwrap(), "readable": format!("{} ; {}", show_hist(hist), op.map(|o| o.show()).unwrap_or_default())}),
-            );
+            self.found_count.fetch_add(1, Ordering::Relaxed);
+            let mut f = self.found.lock().unwrap();
+            if f.get(fp).map(|(l, _, _)| *l > len).unwrap_or(true) {
+                f.insert(
+                    fp.clone(),
+                    (
+                        len,
+                        format!("{what}\n history: {}", show_hist(hist)),
+                        json!({"history": serde_json::to_value(hist).unwrap(), "op": serde_json::to_value(&op).unwrap(), "readable": format!("{} ; {}", show_hist(hist), op.map(|o| o.show()).unwrap_or_default())}),
+                    ),
+                );
+            }
         }
     }
 
@@ -1622,6 +1662,8 @@ pub fn run(tier: Tier, replay_file: Option<&str>) -> i32 {
         pruned: AtomicU64::new(0),
         max_set: AtomicU64::new(0),
         merge_renames: AtomicU64::new(0),
+        found: Mutex::new(BTreeMap::new()),
+        found_count: AtomicU64::new(0),
     };
     let threads = std::thread::available_parallelism().map(|n| n.get()).unwrap_or(4).min(16);
     let checker = ex.checker().threads(threads).spawn_bfs().join();
@@ -1630,6 +1672,12 @@ pub fn run(tier: Tier, replay_file: Option<&str>) -> i32 {
     let well_formed_counterexample = checker.discoveries().len();
     {
         let ex = checker.model();
+        let mut found: Vec<(String, (usize, String, J))> = std::mem::take(&mut *ex.found.lock().unwrap()).into_iter().collect();
+        found.sort_by_key(|(fp, (l, _, _))| (*l, fp.clone()));
+        for (fp, (_, what, case)) in found {
+            ctx.violation(fp, what, case);
+        }
+        ctx.set_info("failing_transitions_or_states", json!(ex.found_count.load(Ordering::Relaxed)));
         for s in &ex.stripes {
             let l = std::mem::take(&mut *s.lock().unwrap());
             ctx.merge(l);
